@@ -15,7 +15,9 @@ syntactic shape raises SiteError, which the build records as a broken obligation
     and the three-way correction `if n_cols == 0 / elif reduce_super_ufunc is None / else`, read per
     output cell (`data`, `counts` are the cell's reduced stored value and stored count).  A
     boolean-mask assignment `data[m] = f(data[m], e[m])` is rewritten to `if m: data = f(data, e)`
-    (the element-wise meaning of a masked update; this rule is part of the trusted translator).
+    (the element-wise meaning of a masked update) and a branch-local abbreviation (`fill_value = ...`)
+    is inlined; both rules are part of the trusted translator.  `s_fix_fill_in_acc_dtype` records
+    whether the add/multiply correction takes the fill value cast to data.dtype (the accumulation dtype).
  4. `s_calc_axis_elt` — the element expression `a if a >= 0 else a + self.ndim` of the generator in
     `COO._reduce_calc`.
  5. `s_mean_dtype`, `s_var_dtype` — the dtype-promotion decisions of `SparseArray.mean` (`if dtype is None: ...`
@@ -228,6 +230,50 @@ def _inside_extern(node, root, extern):
     return False
 
 
+def _inline_branch_locals(stmts, keep):
+    """A name assigned exactly once in the block, inside a branch, and read only later in that same branch is a
+    branch-local abbreviation: its (pure) definition is substituted for its uses and the assignment dropped
+    (py2v's SSA conversion needs every variable assigned in an `if` to be defined on both paths)."""
+    counts = {}
+    for st in stmts:
+        for n in ast.walk(st):
+            if isinstance(n, ast.Assign):
+                for t in n.targets:
+                    if isinstance(t, ast.Name):
+                        counts[t.id] = counts.get(t.id, 0) + 1
+    top = {t.id for st in stmts if isinstance(st, ast.Assign) for t in st.targets if isinstance(t, ast.Name)}
+    inlined = []
+
+    def body(lst):
+        out = []
+        for i, st in enumerate(lst):
+            if isinstance(st, ast.Assign) and len(st.targets) == 1 and isinstance(st.targets[0], ast.Name):
+                v = st.targets[0].id
+                if counts.get(v) == 1 and v not in keep and v not in top:
+                    val = st.value
+
+                    class Sub(ast.NodeTransformer):
+                        def visit_Name(self, n):
+                            if n.id == v and isinstance(n.ctx, ast.Load):
+                                return ast.parse(ast.unparse(val), mode="eval").body
+                            return n
+                    rest = [ast.fix_missing_locations(Sub().visit(x)) for x in lst[i + 1:]]
+                    inlined.append(v)
+                    return out + body(rest)
+            if isinstance(st, ast.If):
+                st.body = body(st.body)
+                st.orelse = body(st.orelse)
+            out.append(st)
+        return out
+    res = body(list(stmts))
+    for v in inlined:
+        for st in res:
+            for n in ast.walk(st):
+                if isinstance(n, ast.Name) and n.id == v:
+                    raise SiteError(f"branch-local `{v}` is used outside the branch that defines it")
+    return res, inlined
+
+
 class _MaskedAssign(ast.NodeTransformer):
     """data[m] = f(..data[m].., ..e[m]..)  ->  if m: data = f(..data.., ..e..)   (m, data plain names)"""
 
@@ -319,6 +365,7 @@ def generate(repo):
     ma = _MaskedAssign()
     blk = [ma.visit(st) for st in blk]
     blk = [ast.fix_missing_locations(st) for st in blk]
+    blk, inl = _inline_branch_locals(blk, {"data", "result_fill_value", "missing_counts"})
     if ma.count != 2:
         raise SiteError(f"expected two masked assignments in the correction block, found {ma.count}")
     text, h = _translate(
@@ -328,13 +375,32 @@ def generate(repo):
          "method.identity": "ext_identity method",
          "method.reduce(np.empty((0,), dtype=self.dtype), **kwargs)": "ext_identity method",
          "method(data, self.fill_value, **kwargs)": "ext_apply method data fill",
-         "method(data, reduce_super_ufunc(self.fill_value, n_cols - counts)).astype(data.dtype)":
+         # the fill value cast to the accumulation dtype of the grouped reduction: the same integer
+         # data.dtype.type(self.fill_value): the fill value cast to the accumulation dtype — the same integer
+         "method(data, reduce_super_ufunc(data.dtype.type(self.fill_value), n_cols - counts)).astype(data.dtype)":
              "(m_ <- py_sub n_cols counts ;; s_ <- ext_apply reduce_super_ufunc fill m_ ;; ext_apply method data s_)",
-         "reduce_super_ufunc(self.fill_value, n_cols)": "ext_apply reduce_super_ufunc fill n_cols"}, {},
+         "reduce_super_ufunc(data.dtype.type(self.fill_value), n_cols)": "ext_apply reduce_super_ufunc fill n_cols"}, {},
         "SparseArray.reduce, from `result_fill_value = self.fill_value` to the call of _reduce_return, per output cell "
         "(masked assignments rewritten)")
     out.append(text)
     rep["s_reduce_fix"] = {"status": "ok", "hash": h}
+    # in which dtype is the add/multiply correction computed?  1: the fill value is first cast to data.dtype (the
+    # accumulation dtype of reduceat: NumPy's platform integer for narrow ints); 0: self.fill_value as it is
+    calls = [n for st in body[i0:i1] for n in ast.walk(st)
+             if isinstance(n, ast.Call) and ast.unparse(n.func) == "reduce_super_ufunc"]
+    if len(calls) != 2:
+        raise SiteError("expected two calls of reduce_super_ufunc in the correction block")
+    firsts = {ast.unparse(c_.args[0]) for c_ in calls}
+    casts = [st for st in ast.walk(red) if isinstance(st, ast.Assign) and ast.unparse(st.targets[0]) == "fill_value"]
+    if firsts == {"fill_value"} and len(casts) == 1 and ast.unparse(casts[0].value) == "data.dtype.type(self.fill_value)":
+        src = 1
+    elif firsts == {"self.fill_value"}:
+        src = 0
+    else:
+        raise SiteError(f"fill operand of reduce_super_ufunc has an unexpected form: {sorted(firsts)}")
+    out.append("(* dtype of the fill operand of the add/multiply correction: 1 = cast to data.dtype (accumulation dtype), "
+               "0 = the array's own dtype *)\nDefinition s_fix_fill_in_acc_dtype : Z := %d.\n" % src)
+    rep["s_fix_fill_in_acc_dtype"] = {"status": "ok", "value": src}
 
     # 4. COO._reduce_calc: element expression of the axis generator
     calc = _fn(coo, "COO._reduce_calc")
